@@ -142,6 +142,9 @@ Definition fn_resetCore : list write := [
   mkW "fieldsIsTrueStr" Whole "nil" true;
   mkW "numFields" Whole "num(0)" true;
   mkW "haveFields" Whole "false" true;
+  mkW "reparseCSV" Whole "false" true;
+  mkW "fieldNames" Whole "nil" true;
+  mkW "fieldIndexes" Whole "nil" true;
   mkW "matchStart" Whole "num(0)" true;
   mkW "matchLength" Whole "num(0)" true;
   mkW "argc" Whole "num(0)" true;
